@@ -34,7 +34,17 @@ ASSUMPTIONS = [
     "as refusals, as are the explicit TypeErrors for adding non-zero scalars",
     "prod(d) <= 256, <= 48 terms and <= 14 elementary symbols per term, |factor| within 1e-3..1e3 per atom/scalar; "
     "empty products (Op.product([]) / OpSum.product([])) are not generated",
-    "equality of differently routed pairs is demanded only where every factor is a dyadic rational (no rounding)",
+    "equality of differently routed pairs is demanded only where every factor is a dyadic rational (no rounding); "
+    "squeeze_identity/simplify re-join the symbol from its elementary words and thereby respell the SHO symbol "
+    "'b^\\dagger + b' as 'b^\\dagger+b' (same matrix, structurally another Op): for such pairs only the ==/hash laws "
+    "are checked, equality is not demanded (counted as respelled_b_dagger_plus_b)",
+    "== between an Op and a non-Op raises AttributeError; outside the property (symbolic operators only), counted as "
+    "a refusal",
+    "basis lists come from a deterministic pool (quick 600, thorough 4000 models per seed, model = f(seed, tier, "
+    "case index mod pool size)); everything else of a case is drawn from the per-case generator",
+    "known defect with its own signature: squeeze_identity (and therefore simplify) raises ValueError for operators "
+    "with >= 2 quantum-number components that contain an identity next to other symbols; after recording it the case "
+    "continues with the unsimplified value",
 ]
 
 MAX_TERMS = 48
@@ -64,7 +74,7 @@ def plan(tier):
                 "required_counters": {"oracle": 9000, "eq_pairs": 50000, "qn_terms_checked": 25000,
                                       "end_to_end": 2500}}
     return {"ncases": 100000, "min_nontrivial": 50000, "case_time_limit": 60, "required_classes": classes,
-            "required_counters": {"oracle": 500000, "eq_pairs": 300000, "qn_terms_checked": 600000,
+            "required_counters": {"oracle": 300000, "eq_pairs": 1500000, "qn_terms_checked": 800000,
                                   "end_to_end": 80000}}
 
 
@@ -642,7 +652,7 @@ class Builder:
             atol, what, expr = 0.0, "simplify|atol=0", f"{xe}.simplify()"
             res = self.lib(what, lambda: xv.simplify())
         else:
-            atol = float(rng.choice([0.0, 1e-12, 1e-6, 1e-3, 0.1, 1.0]))
+            atol = float(rng.choice([0.0, 1e-12, 1e-6, 1e-3, 0.1, 1.0])) if r < 0.7 else float(10.0 ** rng.uniform(-14, 1))
             what = "simplify|atol=0" if atol == 0 else "simplify|atol>0"
             expr = f"{xe}.simplify(atol={atol!r})"
             res = self.lib(what, lambda: xv.simplify(atol=atol))
